@@ -33,6 +33,11 @@ func Partition(c *core.Case) []*memstore.Store {
 	if c.Mode == "dist-timesplit" && n >= 2 {
 		// every series lives on two engines, which hold disjoint time ranges of it
 		for i, s := range c.Series {
+			if i%2 == 1 {
+				// every other series stays whole on one engine
+				groups[i%n] = append(groups[i%n], s)
+				continue
+			}
 			cut := len(s.Samples) / 2
 			a, b := i%n, (i+1)%n
 			groups[a] = append(groups[a], core.Series{Labels: s.Labels, Samples: s.Samples[:cut]})
